@@ -245,6 +245,21 @@ CHECKS = {
    note="Trusted: pyvc + z3, the while rule (entry / preservation VCs), uninterpreted tzinfo behaviour. The deductive obligations bound the "
         "search's internal correctness; agreement with the source zone is explored only.",
    technique="contract-based deductive verification of the search block (pyvc VCs with a derived while-invariant, z3) + statement-shape contracts; property-level agreement with the source zone: bounded stand-in (exploration)"),
+ "C01": dict(
+   category="other", design_ref="DESIGN.md section 8 C01",
+   text="Composition of contracts that are all re-checked in this run: (L1) lines round trip and exact unfolding, (L2) content-line split / "
+        "join, (L3) typed value codecs, (L4) serialisation order - the obligations of C06, C05, C03, C10 run on the current tree - plus, "
+        "new here and decided by fstc for ALL strings: with D = what parsing does to a TEXT value text and Enc = what serialising does, "
+        "D;Enc;D == D (also for CATEGORIES lists), and for parameters from_ical;to_ical;from_ical == from_ical; (L5) pyvc on the real "
+        "line-loop body: BEGIN pushes exactly one new component named by the upper-cased value, END pops the innermost one and attaches "
+        "it to its parent or completes it, END without BEGIN is a ValueError; component classes carry their registration name; content_lines "
+        "is one from_parts line per property item. The TEXT stability obligation refuted the property for value texts with two or more "
+        "consecutive backslashes or %5C (known findings C01-F1/F2, same cause as C07-F2) and is proved on every other text. The "
+        "induction over the line list is the meta-argument; the whole pipeline over every fixture and generated calendars (tree after each "
+        "pass, bytes after pass 2 / 3, first-parse exactness on generated well-formed texts) is a labelled bounded stand-in.",
+   note="Trusted: fstc + pyvc + z3; the imported lemmas' own trusted bases; the composition argument. 'other': per-layer proofs, tree-level "
+        "conclusion by composition and bounded exploration.",
+   technique="contract-based deductive verification: fstc stability equalities over the extracted transducers (all strings) + pyvc obligations on the real BEGIN/END loop branches + imported layer lemmas re-run on the tree; bounded pipeline stand-in"),
 }
 NA_REASON = "check not built yet (build round in progress; DESIGN.md section 8 describes the planned contracts)"
 
